@@ -94,8 +94,8 @@ example : intSqrt 1000000 = 1000 ∧ intSqrt 999999 = 999 ∧ intSqrt (2 ^ 64 - 
       none proved): `seams_correspond` (the seam bits decoded along the decoder's face order mark the images of
       the encoder's seam edges), `traversal_equivariant` (the depth-first / prediction-degree traversals of two
       CTIso tables started from corresponding corners visit corresponding corners, so that the mesh data of
-      both sides correspond), the inverses of the constrained multi-parallelogram, tex-coord and geometric
-      normal schemes (`constrained_multi_roundtrip`, `tex_coords_roundtrip`, `geometric_normal_roundtrip`),
+      both sides correspond), the inverses of the constrained multi-parallelogram and tex-coord
+      schemes (`constrained_multi_roundtrip`, `tex_coords_roundtrip`),
       `assign_points_correspond` (the decoder's point ids realise the encoder's corner → attribute value
       relation) and the step from there to `Spec.checkCore`.
   (c) `eb_encoded_counts_partial`: under CTIso the decoder's face count is the number of faces the encoder
@@ -166,6 +166,14 @@ theorem eb_valence_context_roundtrip (ch : ConnChoices) (i : Nat) (syms : List N
     decodeSymbolsV false syms.length 1 (bs ++ rest) = some (syms, rest) :=
   valence_context_roundtrip ch i syms bs rest hlen h
 
+example : decodeSymbolsV false 5 1 ([1, 2, 5, 205, 12, 3, 205, 12, 3, 105, 38, 3, 53, 92, 157] ++ [9]) =
+    some ([4, 2, 4, 0, 4], [9]) := by
+  have e : encodeSymbolsWith ProbOracle.exact .raw 7 1 [4, 2, 4, 0, 4] =
+      some [1, 2, 5, 205, 12, 3, 205, 12, 3, 105, 38, 3, 53, 92, 157] := by
+    decide +kernel
+  exact (eb_valence_context_roundtrip ⟨fun _ _ => 128, ProbOracle.exact, fun _ => .raw⟩ 0 [4, 2, 4, 0, 4] _ [9]
+    (by decide) e).2
+
 open Draco.EbEnc in
 /-- (b) **delta prediction, wrap transform**: decoder loop ∘ encoder loop = identity on value arrays of
     `n ≥ 1` entries × `nc ≥ 1` components inside the range the transform was initialised with -/
@@ -192,6 +200,18 @@ theorem eb_prediction_octahedron_delta_roundtrip (q : Nat) (t : OctaT) (hq : Oct
   delta_octa_roundtrip q t hq n data hlen hent
 
 open Draco.EbEnc in
+example : deltaDecode (octaDecEntry ⟨4, 15, 14, 7⟩) 2 (deltaEncodeOcta ⟨4, 15, 14, 7⟩ #[7, 7, 3, 5, 10, 4]).toList =
+    [7, 7, 3, 5, 10, 4] :=
+  eb_prediction_octahedron_delta_roundtrip 4 _ (by decide) 3 #[7, 7, 3, 5, 10, 4] rfl (by
+    intro e he
+    have : e ∈ [[7, 7], [3, 5], [10, 4]] := by simpa [SeqEnc.entriesOf] using he
+    simp only [List.mem_cons, List.mem_nil_iff, or_false] at this
+    rcases this with rfl | rfl | rfl
+    · exact ⟨7, 7, rfl, by decide, by decide⟩
+    · exact ⟨3, 5, rfl, by decide, by decide⟩
+    · exact ⟨10, 4, rfl, by decide, by decide⟩)
+
+open Draco.EbEnc in
 /-- (b) **parallelogram prediction**: on the same mesh data (corner table view, data-to-corner map,
     vertex-to-data map), whenever the encoder loop returns corrections the decoder loop returns the values
     (and a count of parallelogram-predicted entries).  Values inside the range of the wrap transform. -/
@@ -204,6 +224,75 @@ theorem eb_prediction_parallelogram_roundtrip (md : MeshData) (wt : WrapT) (lo h
     ∃ used, parallelogramDecode md wt nc corr = .ok (data, used) :=
   parallelogram_roundtrip_of_encode md wt lo hi nc n data corr hnc hn hd hsz hinit hlo hhi hrange henc
 
+
+/-- two triangles `(0,1,2)`, `(2,1,3)`; values are coded in the order of the corners 1, 2, 0, 5; the last entry
+    has a parallelogram -/
+private def mdEx : MeshData :=
+  { t := { c2v := #[0, 1, 2, 2, 1, 3], opp := #[5, inv, inv, inv, inv, 0], seam := #[], lm := #[0, 1, 2, 5],
+           isAtt := false, numFaces := 2 },
+    d2c := #[1, 2, 0, 5], v2d := #[2, 0, 1, 3] }
+
+open Draco.EbEnc in
+set_option maxRecDepth 4000 in
+private theorem exParallelogramEnc :
+    parallelogramEncode mdEx ⟨0, 20, 21, 10, -10⟩ 1 #[3, 7, 12, 16] = .ok #[3, 4, 5, -5] := by
+  simp [parallelogramEncode, encodeBackward, parallelogramCorrAt, parallelogramPredictionE, checkParallelogramEntries,
+    corrWrap, parallelogramPrediction, mdEx, TView.opposite, TView.vertex, rd, rdI, wrI, inv, Eb.nextC, Eb.prevC,
+    Std.Legacy.Range.forIn_eq_forIn_range', Std.Legacy.Range.size, bind, Except.bind, pure, Except.pure, wrap32,
+    Wrap.encCorr, Wrap.clamp, List.range'_succ]
+  decide
+
+open Draco.EbEnc in
+/-- non-vacuity: the last entry is predicted by a parallelogram (3 + 7 − 12, clamped to 0, correction wrapped) -/
+example : ∃ used, parallelogramDecode mdEx ⟨0, 20, 21, 10, -10⟩ 1 #[3, 4, 5, -5] = .ok (#[3, 7, 12, 16], used) :=
+  eb_prediction_parallelogram_roundtrip mdEx ⟨0, 20, 21, 10, -10⟩ 0 20 1 4 #[3, 7, 12, 16] _ (by decide) (by decide)
+    (by decide) (by decide) (by decide) (by decide) (by decide) (by decide) exParallelogramEnc
+
+open Draco.EbEnc in
+/-- (b) **geometric normal prediction**: whenever the encoder loop succeeds, the decoder loop — given the
+    encoder's corrections and a bit decoder that yields the encoder's flip bits (`eb_bit_buffer_roundtrip`)
+    — returns the octahedral coordinates (entries = canonical grid points, what
+    `AttributeOctahedronTransform` produces) -/
+theorem eb_prediction_geometric_normal_roundtrip (md : MeshData) (ps : PosSource) (q : Nat) (ot : OctaT)
+    (hq : Octa.init q = some ot) (data : Array Int) (n : Nat) (hd : md.d2c.size = n) (hsz : data.size = 2 * n)
+    (hent : ∀ p, p < n → Octa.inGrid ot (data.getD (2 * p) 0, data.getD (2 * p + 1) 0) ∧
+      Octa.canonical ot (data.getD (2 * p) 0, data.getD (2 * p + 1) 0))
+    (corr : Array Int) (flips : Array Bool) (henc : geometricNormalEncode md ps ot data = .ok (corr, flips))
+    (fd : RAnsBitDec) (hfd : Yields RAnsBitDec.nextBit fd flips.toList) :
+    ∃ k, geometricNormalDecode md ps ot (Leaf.octaDec ot) false fd corr = .ok (data, k) :=
+  geometric_normal_roundtrip md ps q ot hq data n hd hsz hent corr flips henc fd hfd
+
+
+/-- one triangle in the plane z = 0 (positions (0,0,0), (4,0,0), (0,4,0)), 4 bit octahedral coordinates -/
+private def mdN : MeshData :=
+  { t := { c2v := #[0, 1, 2], opp := #[inv, inv, inv], seam := #[], lm := #[0, 1, 2], isAtt := false, numFaces := 1 },
+    d2c := #[1, 2, 0], v2d := #[2, 0, 1] }
+private def psN : PosSource := { pointIds := #[1, 2, 0], map := #[0, 1, 2], values := #[0, 0, 0, 4, 0, 0, 0, 4, 0] }
+private def otN : OctaT := { q := 4, maxQ := 15, maxV := 14, center := 7 }
+
+open Draco.EbEnc in
+set_option maxRecDepth 8000 in
+private theorem exNormalEnc :
+    geometricNormalEncode mdN psN otN #[7, 7, 3, 5, 10, 4] = .ok (#[7, 0, 5, 4, 4, 12], #[true, true, true]) := by
+  simp [geometricNormalEncode, normalPredict, normalCorrection, mdN, psN, otN, PosSource.get, TView.opposite, TView.vertex,
+    TView.swingLeft, TView.swingRight, rd, rdI, wrI, inv, Eb.nextC, Eb.prevC,
+    Std.Legacy.Range.forIn_eq_forIn_range', Std.Legacy.Range.size, bind, Except.bind, pure, Except.pure, wrap32,
+    List.range'_succ, Octa.canonicalizeIntVec, Octa.intVecToCoords, Octa.encCorr, Octa.modMax, Octa.makePositive,
+    Octa.canonicalize, Octa.isInDiamond, Octa.invertDiamond, Octa.rotationCount, Octa.rotatePoint, Octa.isInBottomLeft,
+    absSum3, Eb.iabs, u64, s64, toUnsigned, toSigned, Draco.iabs, u32, s32, tdiv2]
+  all_goals decide
+
+open Draco.EbEnc in
+/-- non-vacuity: three normals against the face normal (0,0,1) · 16, all coded with the flipped prediction; the
+    bit decoder is the one `eb_bit_buffer_roundtrip` provides for the flip bits -/
+example : ∃ fd k, geometricNormalDecode mdN psN otN (Leaf.octaDec otN) false fd #[7, 0, 5, 4, 4, 12] =
+    .ok (#[7, 7, 3, 5, 10, 4], k) := by
+  obtain ⟨d, _, hy⟩ := eb_bit_buffer_roundtrip ⟨fun n0 tot => (512 * n0 + tot) / (2 * tot), ProbOracle.exact, fun _ => .tagged⟩
+    [true, true, true] (by decide) []
+  obtain ⟨k, hk⟩ := eb_prediction_geometric_normal_roundtrip mdN psN 4 otN (by decide) #[7, 7, 3, 5, 10, 4] 3 rfl rfl
+    (by decide) _ _ exNormalEnc d hy
+  exact ⟨d, k, hk⟩
+
 open Draco.EbEnc in
 /-- (c) under CTIso the decoder's corner table has exactly one face per face the encoder processed
     (`processed_connectivity_corners_`) -/
@@ -211,5 +300,12 @@ theorem eb_encoded_counts_partial (t : CT) (processed : Array Nat) (nf : Nat) (d
     (h : ctIso t processed nf dc2v dopp = true) :
     nf = processed.size ∧ dc2v.size = 3 * nf ∧ dopp.size = 3 * nf :=
   ctIso_faces t processed nf dc2v dopp h
+
+open Draco.EbEnc in
+set_option maxRecDepth 8000 in
+/-- non-vacuity: one triangle, processed from its corner 1, decoder vertex ids 7, 8, 9 -/
+example : ctIso ⟨#[0, 1, 2], #[inv, inv, inv], #[0, 1, 2], 0, 0⟩ #[1] 1 #[7, 8, 9] #[inv, inv, inv] = true := by
+  simp [ctIso, CT.numCorners, CT.numVertices, Id.run, Std.Legacy.Range.forIn_eq_forIn_range', Std.Legacy.Range.size,
+    List.range'_succ, inv, Eb.nextC, Eb.prevC, bind, pure]
 
 end Draco.C01Eb
